@@ -220,7 +220,7 @@ namespace raptor
                     residuals[iter] = r_norm;
                 }
 
-                while (r_norm > 1e-07 && iter < num_iterations)
+                while (!(r_norm <= 1e-07) && iter < num_iterations)
                 {
                     cycle(sol, rhs, 0);
 
